@@ -150,7 +150,7 @@ def alphabet_constraint(draw, kind):
             # ranges must stay inside the (non-contiguous) base alphabet
             ok = [c for c in range(a, hi + 1) if c in base]
             return Cons("from", [(c, c) for c in ok])
-        hi = min(hi, max(base))
+        hi = min(hi, base[-1])
         return Cons("from", [(a, hi)])
     n = draw(st.sampled_from([1, 2, 3, 4, 5, 8, 9, 16]))
     chars = sorted(set(draw(st.lists(st.sampled_from(pool), min_size=1, max_size=n))))
@@ -260,7 +260,7 @@ def type_(draw, ctx, depth):
             if cfg.constraints and draw(st.integers(0, 2)) == 0:
                 t.size = draw(int_constraint(cfg, size=True))
         else:
-            n = draw(st.integers(0 if k != "CHOICE" else 1, cfg.max_members))
+            n = draw(st.integers(0 if k == "SEQUENCE" else 1, cfg.max_members))
             names = _member_names(draw, n, cfg)
             mem = []
             for nm in names:
